@@ -20,7 +20,8 @@ def _names_pool(rng, space, spin_mode):
     letters = LETTERS[space]
     plain = list(letters[:rng.choice([3, 4, 5, 7])])
     numbered = [rng.choice(letters) + str(rng.choice([1, 1, 2])) for _ in range(2)]
-    pooled = [rng.choice(letters) + str(rng.choice([3, 3, 4, 4, 5, 6]))
+    pooled = [rng.choice(letters) + str(rng.choice([3, 3, 4, 4, 5, 6, 9, 10, 11, 12, 19, 20,
+                                                     29, 30]))
               for _ in range(rng.choice([0, 1, 2, 3]))]
     return plain, numbered, pooled
 
@@ -235,7 +236,7 @@ def generate(seed, run, tier="quick", overrides=None):
                 spin = rng.choice(["", "", "", "a", "b"]) if spin_mode or \
                     rng.random() < 0.2 else ""
                 key = f"{sp}_{spin}" if spin else sp
-                kw[key] = rng.choice([0, 1, 2, 2, 3, 4, 5, 7, 9, 15])
+                kw[key] = rng.choice([0, 1, 2, 2, 3, 4, 5, 7, 9, 15, 15, 31, 52, 75])
             st = {"op": "reg.generic", "kw": kw}
         elif k == "reg.bad":
             st = {"op": "reg.bad", "variant": rng.choice(
